@@ -136,6 +136,7 @@ type sideWorld struct {
 	proxy    *sidecar.Proxy
 	svc      *sidecar.Service
 	promHead int64
+	promDown bool // Prometheus does not answer the head-series request
 	sim      *simTargets
 	cli      *http.Client
 	loadErr  error
@@ -169,7 +170,12 @@ func newSideWorld(dir string, cfgYAML string) *sideWorld {
 		}
 		return nil
 	})
-	w.svc = sidecar.NewService("", "http://127.0.0.1:9090", func() (int64, error) { return w.promHead, nil },
+	w.svc = sidecar.NewService("", "http://127.0.0.1:9090", func() (int64, error) {
+		if w.promDown {
+			return 0, fmt.Errorf("scripted: prometheus is not reachable")
+		}
+		return w.promHead, nil
+	},
 		w.cfgm, w.tm, reg, lg)
 	if cfgYAML != "" {
 		if err := w.cfgm.ReloadFromRaw([]byte(cfgYAML)); err != nil {
